@@ -97,8 +97,8 @@ def _tmpfile():
     return _tmp
 
 
-SMALL = dict(domains=[None, "example.com", "a.example.com", "com"], cpaths=[None, "/x"], maxage=[None, 1],
-             secure=[False], qpaths=["/", "/x/y"])
+SMALL = dict(domains=[None, "example.com", "a.example.com", "com"], cpaths=[None, "/x", "/x/"], maxage=[None, 1],
+             secure=[False], qpaths=["/", "/x", "/x/y"])
 FULL = dict(domains=DOMAINS, cpaths=CPATHS, maxage=MAXAGE, secure=[False, True], qpaths=PATHS)
 
 
